@@ -123,6 +123,7 @@ func (w *World) QName(tn *types.TypeName) string {
 }
 
 func mangleSort(s string) string {
+	s = strings.NewReplacer("!", ":", "<", "[", ">", "]", "%", "#").Replace(s)
 	return strings.Map(func(r rune) rune {
 		switch r {
 		case '(', ')', '|':
@@ -145,7 +146,7 @@ func (w *World) initBaseDecls() {
 	r.DeclareFunc("substr", []string{SStr, SInt, SInt}, SStr)
 	s := Var("s", SStr)
 	t := Var("t", SStr)
-	r.AddAxiom("strlen.nonneg", []string{"strlen"}, Forall([]*Term{s}, Ge(r.Apply("strlen", s), IntT(0)), []*Term{r.Apply("strlen", s)}))
+	r.AddAxiom("strlen.nonneg", []string{"strlen"}, Forall([]*Term{s}, And(Ge(r.Apply("strlen", s), IntT(0)), Le(r.Apply("strlen", s), BigT(new(big.Int).SetUint64(1<<56)))), []*Term{r.Apply("strlen", s)}))
 	r.AddAxiom("strlen.empty", []string{"strlen"}, Forall([]*Term{s}, Eq(Eq(r.Apply("strlen", s), IntT(0)), Eq(s, r.StrLit(""))), []*Term{r.Apply("strlen", s)}))
 	cat := r.Apply("strcat", s, t)
 	r.AddAxiom("strcat.len", []string{"strcat"}, Forall([]*Term{s, t}, Eq(r.Apply("strlen", cat), Add(r.Apply("strlen", s), r.Apply("strlen", t))), []*Term{cat}))
@@ -299,7 +300,7 @@ func (w *World) sliceSort(elem string) string {
 	a := Var("a", ArraySort(SInt, elem))
 	ln := func(x *Term) *Term { return r.Apply("len:"+name, x) }
 	at := func(x, j *Term) *Term { return r.Apply("at:"+name, x, j) }
-	maxInt := BigT(new(big.Int).SetUint64(1<<63 - 1))
+	maxInt := BigT(new(big.Int).SetUint64(1 << 56)) // address-space bound on lengths (assumption)
 	trig := []string{"len:" + name, "at:" + name, "mk:" + name, "app:" + name, "sub:" + name, name}
 	r.AddAxiom(name+".len", trig, Forall([]*Term{s}, And(Ge(ln(s), IntT(0)), Le(ln(s), maxInt)), []*Term{ln(s)}))
 	r.AddAxiom(name+".nil", []string{"nil:" + name}, Eq(ln(r.Apply("nil:"+name)), IntT(0)))
@@ -320,7 +321,7 @@ func (w *World) sliceSort(elem string) string {
 	return q
 }
 
-func sliceBase(sort string) string { return strings.Trim(sort, "|") }
+func sliceBase(sort string) string { return unsym(sort) }
 
 func (w *World) SlLen(s *Term) *Term {
 	b := sliceBase(s.Sort)
@@ -508,6 +509,9 @@ func allFuncs(p *ssa.Package) []*ssa.Function {
 			return
 		}
 		seen[f] = true
+		if f.Synthetic != "" && f.Parent() == nil {
+			return // wrappers / thunks: the declared method is analysed instead
+		}
 		out = append(out, f)
 		for _, a := range f.AnonFuncs {
 			add(a)
@@ -680,6 +684,11 @@ func (w *World) LoadSpecs(extDir string) error {
 				return fmt.Errorf("%s: %v", g.Pos, err)
 			}
 			n := w.structName(ot)
+			for _, ex := range w.ghost[n] {
+				if ex.Name == g.Name {
+					return fmt.Errorf("%s: duplicate ghost field %s.%s", g.Pos, n, g.Name)
+				}
+			}
 			w.ghost[n] = append(w.ghost[n], ghostFieldInfo{g.Name, gt})
 		}
 	}
@@ -708,6 +717,9 @@ func (w *World) LoadSpecs(extDir string) error {
 			}
 			w.FuncSpecs[key] = fs
 			funcHome[fs] = sf
+			if fs.Iterator {
+				iterSpecKeys[key] = true
+			}
 		}
 	}
 	return nil
